@@ -199,13 +199,17 @@ def sweeps(tier, rng):
     n = N(tier, 250, 5000) if tier != "search" else 1500
     def run_curves():
         for i in range(n):
-            k = rng.randint(1, 4); fam = rng.below(3)
+            k = rng.randint(1, 4); fam = rng.below(4)
             base = gen_cubic(rng)
             curves = []
             for j in range(k):
                 if fam == 0: curves.append(gen_cubic(rng))
+                elif fam == 3: curves.append(list(base))                      # the same cubic in several masters ...
                 else: curves.append([(p[0] + rng.randint(-15, 15) + j * 7, p[1] + rng.randint(-15, 15)) for p in base])
             tols = [gen_tol(rng) for _ in range(k)]
+            if fam == 3:                                                      # ... each with a tolerance of its own, coarse ones first
+                k = max(k, 2); curves = [list(base) for _ in range(k)]
+                t0 = gen_tol(rng); tols = sorted([t0 * rng.choice([1, 4, 16, 40]) for _ in range(k - 1)] + [t0], reverse=rng.chance(80))
             aq = rng.chance(70)
             try:
                 res_ = cu2qu.curves_to_quadratic(curves, tols, aq)
@@ -412,6 +416,24 @@ def sweeps(tier, rng):
             tol = rng.choice([0.5, 1.0, 2.0, 5.0]); allc = rng.chance(50); calls = []
             for _c in range(rng.randint(1, 2)):
                 calls.append(("moveTo", (R(),)))
+                if rng.chance(40):
+                    # a smooth run written one quadratic at a time: on-curve points exactly midway between neighbouring off-curve
+                    # points (what the pen re-merges), with retracted handles (off-curve == on-curve) and equal spacing in between
+                    x, y = calls[-1][1][0]; dx, dy = rng.choice([(50.0, 0.0), (0.0, 50.0), (40.0, 30.0), (100.0, 0.0)])
+                    offs = []
+                    for _s in range(rng.randint(3, 6)):
+                        x += dx; y += dy
+                        if rng.chance(25): dx, dy = dy, -dx
+                        offs.append((x, y))
+                    for j_, off in enumerate(offs):
+                        if j_ + 1 < len(offs):
+                            nxt = offs[j_ + 1]; on = ((off[0] + nxt[0]) / 2, (off[1] + nxt[1]) / 2)
+                            if rng.chance(30): on = nxt if rng.chance(50) else off          # retracted handle
+                        else:
+                            on = (off[0] + dx, off[1] + dy)
+                        calls.append(("qCurveTo", (off, on)))
+                    calls.append(("closePath", ()) if rng.chance(60) else ("endPath", ()))
+                    continue
                 for _s in range(rng.randint(1, 5)):
                     k = rng.below(10)
                     if k < 6: calls.append(("qCurveTo", tuple(R() for _ in range(rng.randint(2, 5)))))
